@@ -233,6 +233,28 @@ func guardExits(h *ssa.Function, cl *ssa.Call, g ir.Guard, depth int) (bad []hel
 					continue
 				}
 				cv, neg := v, false
+				// `return a || b` / `a && b`: the result is a phi in the return block; when the cut
+				// leaves one live incoming edge the value returned on the remaining paths is that edge's
+				if phi, isPhi := cv.(*ssa.Phi); isPhi && phi.Block() == b {
+					var live []ssa.Value
+					for pi, pred := range b.Preds {
+						if !r.BlockEntered(pred) {
+							continue
+						}
+						cut := false
+						for _, e := range pass {
+							if e.From == pred && e.Idx < len(pred.Succs) && pred.Succs[e.Idx] == b {
+								cut = true
+							}
+						}
+						if !cut {
+							live = append(live, phi.Edges[pi])
+						}
+					}
+					if len(live) == 1 {
+						cv = live[0]
+					}
+				}
 				for {
 					if u, isU := cv.(*ssa.UnOp); isU && u.Op == token.NOT {
 						cv, neg = u.X, !neg
